@@ -47,4 +47,4 @@ def run(ctx):
     ctx.floor("D2", 1)
     ctx.floor("D3", 3)
     ctx.floor("D4", 6)
-    ctx.floor("D5", 12)
+    ctx.floor("D5", 8)
